@@ -18,7 +18,7 @@ KINDS = {
 }
 
 
-class InjectedFault(RuntimeError):
+class InjectedFault(OSError):
     pass
 
 
